@@ -97,7 +97,8 @@ Definition names_ok (c : cfg) (f : file Z) (gname : string) (stype : Z) (expecte
   | Some g =>
     match set_names Z c g stype, expected with
     | Err _, None => true
-    | OK l, Some l' => seteq String.eqb l l'
+    | OK l, Some l' => (* dict keys: duplicates collapse *)
+        forallb (fun x => existsb (String.eqb x) l') l && forallb (fun x => existsb (String.eqb x) l) l'
     | _, _ => false
     end
   end.
